@@ -45,6 +45,8 @@ def check(run, fx, tier, floors=True):
     loops.rule_loops(run, fx, "C01-f", floors)
     indexing.rule_index(run, fx, "C01-g", floors)
     overflow.rule_overflow(run, fx, "C01-e", floors)
+    import relies
+    relies.rule_relies(run, fx, "C01-r", floors)
     rule_char_boundary(run, fx, "C01-h", floors)
 
 
